@@ -108,10 +108,45 @@ PROPS["C17"] = dict(
                  "error identity is checked with errors.Is/As against the injected sentinel, ErrTemplateNotFound, *SecurityViolation"],
 )
 
+
+PAD_BASE = 2097152
+
+
+def _long_runs(lines, seed, tier):
+    """Adds, to a sample of the cases that are expected to render, a run of the same program behind 4200 bytes of literal
+    text (the tokenizer for large templates reads it): the output is the expected one behind the same text -- literal text,
+    comments, verbatim bodies and dashes mean the same at every template size."""
+    import json, random
+    rnd = random.Random(seed)
+    out = []
+    every = 5 if tier == "quick" else 2
+    for l in lines:
+        c = json.loads(l)
+        e = c.get("expect") or {}
+        runs = c.get("runs") or []
+        if (e.get("ok") and not e.get("noout") and not e.get("anyoutcome") and runs and rnd.randrange(every) == 0):
+            r0 = runs[0]
+            entry = r0.get("entry") or c.get("entry")
+            text = "".join(pc.get("w") or pc.get("subst") or "".join(chr(abs(x)) for x in (pc.get("c") or []) if abs(x) < PAD_BASE)
+                           for pc in (r0.get("tp") or {}).get(entry) or [])
+            # (text in front of an extends tag is not literal text of the output)
+            if entry in (r0.get("tp") or {}) and "extends" not in text and not r0.get("pads") and "out" not in r0 and "alt" not in r0 and not r0.get("via"):
+                r = json.loads(json.dumps(r0))
+                r["label"] = r0.get("label", "run") + "-long"
+                r["pads"] = [{"len": 4200, "style": "p"}]
+                r["tp"][entry] = [{"c": [PAD_BASE]}] + list(r["tp"][entry])
+                r["out"] = [PAD_BASE] + list(e.get("out") or [])
+                r["norel"] = True
+                c["runs"] = list(runs) + [r]
+                c["tags"] = list(c.get("tags") or []) + ["longrun"]
+                l = json.dumps(c) + "\n"
+        out.append(l)
+    return out
+
 PROPS["C13"] = dict(
     level="model_checking",
     stages=[dict(name="enum", module="MC_C13", cfg={"quick": "MC_C13_quick.cfg", "thorough": "MC_C13_thorough.cfg"},
-                 timeout={"quick": 300, "thorough": 1500}),
+                 timeout={"quick": 300, "thorough": 1500}, transform=_long_runs),
             # a dash works at every template size: fully dashed templates whose token count sweeps through every
             # capacity step of the pooled token buffers, below and above the large-template threshold (MC_C14's sweeps)
             dict(name="sweep", module="MC_C14", cfg={"quick": "MC_C13_sweep_quick.cfg", "thorough": "MC_C13_sweep_thorough.cfg"},
@@ -121,7 +156,7 @@ PROPS["C13"] = dict(
          "singletons/pairs/all/all-but-one otherwise) x 6 whitespace styles of the neighbouring text; two real renders per "
          "case (dashed source, hand-trimmed source) which must agree with each other and with the model; stage sweep: fully dashed "
          "templates whose token count passes through every value from ~200 to ~1100 (small tokenizer) and the large-template "
-         "sweep of MC_C14; non-trivial = D non-empty",
+         "sweep of MC_C14; non-trivial = D non-empty; one enum case in five (quick) / two (thorough) also behind 4200 bytes of literal text",
     assumptions=["TLC checks on the model that the two formulations coincide for D = {} and that a dash only removes whitespace",
                  "text pieces are symbolic in Exec and substituted afterwards, so the expectation does not depend on the text content"],
 )
@@ -134,7 +169,7 @@ PROPS["C14"] = dict(
     rule="C13 corpus (every tag kind, with and without dashes) x pad position (each text piece, all text pieces) x pad "
          "content (plain text, text with lone braces/quotes/backslash, comment, empty print tags) ; one render per pad length "
          "0 / 1 / 4000 / 20480 (/ 102400 / 300000) and per exact template size 4095..4098, 8192; token-count sweeps below and "
-         "above the large-template threshold (every token count up to ~1100 / ~2100); thorough also RenderTo writers",
+         "above the large-template threshold (every token count up to ~1100 / ~2100); thorough also RenderTo writers; length plan edge (pad lengths around 64 KiB, thorough also 128 KiB) on dashed cases incl. the four-character white-space style",
     assumptions=["metamorphic: Exec copies text pieces verbatim, so pad tokens travel from source to expected output",
                  "pads stand in the middle of a text piece, never next to a delimiter"],
 )
@@ -142,11 +177,11 @@ PROPS["C14"] = dict(
 PROPS["C04"] = dict(
     level="model_checking",
     stages=[dict(name="enum", module="MC_C04", cfg={"quick": "MC_C04_quick.cfg", "thorough": "MC_C04_thorough.cfg"},
-                 timeout={"quick": 300, "thorough": 1500})],
+                 timeout={"quick": 300, "thorough": 1500}, transform=lambda lines, seed, tier: _long_runs(lines, seed, tier))],
     nontrivial=lambda r: True,
     rule="every admissible literal (17 byte classes incl. NUL, invalid UTF-8, lone braces, %, #, -, backslash, quotes) of up "
          "to Side bytes before and after each of 8 tag kinds; every literal alone up to Alone bytes; every comment / verbatim "
-         "body up to BodyLen bytes plus bodies holding tag syntax and spies; two tags with a literal between",
+         "body up to BodyLen bytes plus bodies holding tag syntax and spies; two tags with a literal between; one case in five (quick) / two (thorough) also behind 4200 bytes of literal text (large-template tokenizer)",
     assumptions=["Admissible excludes only text that would itself be a delimiter ({{ {% {# inside, a trailing { before a tag)",
                  "verbatim bodies that contain tag syntax are checked for what the property states (not evaluated: same output "
                  "under three contexts, no context data, no spy invoked), not for byte-exact reproduction of the inner tags"],
@@ -161,7 +196,7 @@ PROPS["C07"] = dict(
     rule="every string up to MaxLen over {< > & \" ' a ; # 3 9 e-acute euro 0xFF NUL} (+ already-escaped seeds, ints, null) "
          "x 16 positions (print, after/before another filter, apply, macro body, included template, if body, set, concatenation, "
          "after raw, the filter applied to its own output in a chain / via set / via apply / under the other name) "
-         "x names escape/e (metamorphic pair); the engine's outputs are recorded and TLC evaluates ValidEscape on each",
+         "x names escape/e (metamorphic pair); the engine's outputs are recorded and TLC evaluates ValidEscape on each; Go values of numeric kind whose String method gives markup (enum, uenum, fenum)",
     assumptions=["accepted references: &amp; &lt; &gt; &quot;|&#34;|&#x22; &#39;|&#039;|&#x27;|&apos;",
                  "TLC checks on the model that the reference Escape has no raw special character and decodes back to the input"],
 )
@@ -356,7 +391,7 @@ PROPS["C03"] = dict(
          "chan) in 5 printing positions. Each case: 24 renders on fresh engines and fresh context values + 8 with reversed insertion "
          "order, all in 3 independent sets of processes; every output must be byte-identical; the same instant (8, before and after "
          "1970) as time value / int / int64 / decimal formats alike; include-with hashes whose values read keys of the same hash "
-         "(plain, only, sandboxed) against the model's value. non-trivial = not order-insensitive",
+         "(plain, only, sandboxed) against the model's value. non-trivial = not order-insensitive; every case also renders its context object, edits every map of two or more string keys in it in place (one key replaced, size kept), renders again and compares with a fresh object of the same content",
     assumptions=["no reference order is assumed: any fixed order passes", "a failing render is a fixed result too (anyoutcome)"],
 )
 
